@@ -1,6 +1,9 @@
 """(development helper) build the C11 entries of known_findings.json from literal witnesses,
 checking each against the real code, the model and the oracle."""
 import json, sys, os
+sys.exit('obsolete: emptyslice, objectid and arraykey were repaired in the library (905fac1, '
+         '014e9e3, 63b3a8a); known_findings.json holds them as "fixed" and their witnesses are '
+         'replayed as corpus cases by props/c11.py — running this would overwrite those records')
 sys.path.insert(0, os.path.dirname(os.path.abspath(__file__)))
 import wire
 from props import c11
